@@ -144,6 +144,7 @@ class Doc:
     # source order of top-level elements: (kind, index); kind in t e r g s p
     order: List[Tuple[str, int]] = field(default_factory=list)
     allow_properties: bool = False
+    classes: set = field(default_factory=set)     # labelled input classes the generator put into this document
 
     def default_order(self):
         o = []
